@@ -112,26 +112,35 @@ do_mhupd(const cmd *c)
         int pl;
         unsigned al;
         gbuf in;
+        int huge = len > (64u << 20);
         gbuf_parse_place(c->t[5], &pl, &al);
-        gbuf_alloc(&in, len, pl, al);
-        pat_fill(in.p, b, off, len);
+        if (huge) {
+                memset(&in, 0, sizeof in);
+                in.p = huge_window(b) + (off & (PAT_PERIOD - 1));
+        } else {
+                gbuf_alloc(&in, len, pl, al);
+                pat_fill(in.p, b, off, len);
+        }
         obs o;
         uint64_t a[3] = { (uint64_t) s->ctx.p, (uint64_t) in.p, len };
         vc_begin();
         vc_output("ctx", &s->ctx);
-        vc_input("in", &in);
+        if (!huge)
+                vc_input("in", &in);
         uint64_t r = vcall(s->f_upd, 3, a, &o);
         ev_begin("MhUpdate");
         ev_int("sid", sid);
         {
                 char sb[96];
-                snprintf(sb, sizeof sb, "[%u,%llu,%llu]", b, (unsigned long long) (off & (PAT_PERIOD - 1)), (unsigned long long) len);
+                snprintf(sb, sizeof sb, "[%u,%llu,%llu,%llu]", b, (unsigned long long) (off & (PAT_PERIOD - 1)), (unsigned long long) (len >> 20),
+                         (unsigned long long) (len & 0xFFFFF));
                 ev_raw("data", sb);
         }
         ev_int("rc", (long long) (int) r);
         ev_obs(&o);
         ev_end();
-        gbuf_free(&in);
+        if (!huge)
+                gbuf_free(&in);
 }
 
 /* mhfin sid */
